@@ -78,6 +78,11 @@ class Ctx:
         for mname, fn in cls.methods.items():
             if mname in called and mname.startswith('_') and mname not in PROTOCOL and mname not in callbacks:
                 continue
+            # a private helper inherited from a shared private base / mix-in that nothing in this class calls or hands over is
+            # not an entry point of this class (it serves a sibling); where it is called it is analysed spliced into its caller
+            if mname in getattr(cls, 'inherited_private', ()) and mname.startswith('_') and not mname.startswith('__') \
+                    and mname not in PROTOCOL and mname not in callbacks and mname not in called:
+                continue
             out.append((mname, fn))
         return out
 
